@@ -252,6 +252,12 @@ ProfPlain ==
     quants |-> Quants8 \ {<<2, -1, FALSE>>}, looks |-> FALSE, lookbs |-> FALSE, atomics |-> FALSE, groups |-> TRUE,
     brefs |-> FALSE, bexs |-> FALSE, conds |-> FALSE, unrestricted |-> FALSE]
 
-Prof(name) == CASE name = "core" -> ProfCore [] name = "cond" -> ProfCond
+\* C08/C10/C11 space: the core atoms plus \G
+ProfIter ==
+   [atoms |-> {Lit("a"), Lit("b"), Lit("E"), AnyC, Class(<<"a", "b">>), Asrt("bol"), Asrt("eol"), Asrt("wb"), Keep, Cont},
+    quants |-> Quants4, looks |-> TRUE, lookbs |-> TRUE, atomics |-> TRUE, groups |-> TRUE,
+    brefs |-> TRUE, bexs |-> FALSE, conds |-> FALSE, unrestricted |-> FALSE]
+
+Prof(name) == CASE name = "core" -> ProfCore [] name = "iter" -> ProfIter [] name = "cond" -> ProfCond
                 [] name = "wild" -> ProfWild [] name = "plain" -> ProfPlain
 =============================================================================
